@@ -140,3 +140,38 @@ PROPS["C01"] = dict(
     assumptions=["grid matrices: entries k/4 with |k|<=20 or -inf, so every partial sum is exact in f32 in any order",
                  "in-contract calls only: look-ahead rows >= M-1, row range within the sequence rows"],
 )
+
+
+RED_INV = ["GenericOK", "Avx2F32OK", "MaxInitOK", "LanesOK", "ThresholdOK"]
+PROPS["C07"] = dict(
+    mc=[
+        dict(name="MC_Reduce_f32_C2", module="MC_Reduce", invariants=RED_INV, actions=["AddRow"],
+             constants=dict(C=2, Vals="<- ValsN", MaxInit="<- NinfC", Perm="<- Ident2", Assumed="<- Ident2"),
+             quick=dict(MaxRows=3), thorough=dict(MaxRows=4)),
+        dict(name="MC_Reduce_f32_C4", module="MC_Reduce", invariants=RED_INV, actions=["AddRow"],
+             constants=dict(C=4, Vals="<- ValsN", MaxInit="<- NinfC", Perm="<- Swap4", Assumed="<- Swap4"),
+             quick=dict(MaxRows=2), thorough=dict(MaxRows=2)),
+        dict(name="MC_Reduce_u8_C4", module="MC_Reduce", invariants=["GenericOK", "LanesOK", "ThresholdOK"], actions=["AddRow"],
+             constants=dict(C=4, Vals="<- ValsU", MaxInit="<- ZeroC", Perm="<- Swap4", Assumed="<- Swap4"),
+             quick=dict(MaxRows=2), thorough=dict(MaxRows=2)),
+        dict(name="MC_Reduce_neg_zero_init", module="MC_Reduce", invariants=["MaxInitOK"], expect_violation="MaxInitOK",
+             constants=dict(C=2, Vals="<- ValsN", MaxInit="<- ZeroC", Perm="<- Ident2", Assumed="<- Ident2", MaxRows=2)),
+        dict(name="MC_Reduce_neg_lane_order", module="MC_Reduce", invariants=["LanesOK"], expect_violation="LanesOK",
+             constants=dict(C=4, Vals="<- ValsU", MaxInit="<- ZeroC", Perm="<- Swap4", Assumed="<- Ident4", MaxRows=2)),
+    ],
+    record=True, trace="Trace_C07", shards=12,
+    level_text="Maximum / arg-maximum / threshold set are D-layer definitions over a rows x C table; the generic scan, the "
+               "AVX2 column-maxima arg-max, the AVX2 max kernel (initial accumulator as a parameter) and the AVX2 u8 "
+               "arg-max (lane order of the unpack step as a parameter) are model-checked against them on every small "
+               "table, with the as-originally-coded variants (zero accumulator, identity lane order) kept as negative "
+               "controls that must violate the invariant. Every recorded call of the real generic / SSE2 / AVX2 / "
+               "dispatched (each arm forced) reductions on f32 and u8 tables built directly in StripedScores, through the "
+               "pipeline traits, the StripedScores API (offsets) and the linear Scores API, is validated by TLC.",
+    level_note="Tables with NaN are outside the property. MC at C<=4, <=4 rows; real C=16/32 and up to 5000 rows by "
+               "recorded executions with the maximum placed in every column / 128-bit lane, first / last / middle row, "
+               "duplicated maxima, all-negative, all -inf, 0 and 255 for u8. The float padding sentence of C07 is "
+               "checked in C01 (PadInv). Trusted: TLC, Json module.",
+    rule="impl->spec: one event per table x backend {rows, thr, max, argmax, hits}; distinct_nontrivial = distinct "
+         "(backend, arm, element type, C, table, threshold).",
+    assumptions=["f32 tables hold grid values or -inf (no NaN), so comparisons are exact"],
+)
